@@ -195,3 +195,99 @@ def build_for(pid, tier):
                             descr='cron callback with every send free to succeed, fail with any exit code or hit a syscall error: the callback fails only because of such a failure',
                             bounds='0 vesting entries; %s; %s' % (FOC['money'], cuts), max_paths=400000, wall_s=500 if tier == 'quick' else 1500))
     return O
+
+
+# ---- dispute_windowed_post: the penalty of a successfully disputed proof ---------------------------------------------
+# Whole method from MIR; the sector/partition part between the dispute-window check and the penalty computation is cut
+# to contracts (declared; C04 area): request_current_epoch_block_reward / request_current_total_power (typed answers),
+# State::load_deadlines, Deadlines::load_deadline / update_deadline, Deadline::take_post_proofs /
+# load_partitions_for_dispute (disputed power >= 0) / record_faults (arbitrary power delta), Sectors::load /
+# load_for_proof, verify_windowed_post (arbitrary verdict), State::save_deadlines, pledge_penalty_for_invalid_windowpost
+# and reward_for_disputed_window_post (arbitrary amounts >= 0).
+
+def run_dispute(nvest):
+    def run(E):
+        rt, rtref = new_rt(E)
+        pre = mk_miner_state(E, nvest)
+        rt.state = pre['st']
+        E.ctx.assume(rt.balance >= pre['pcd'] + pre['lf'] + pre['ip'])
+        E.ctx.assume(rt.caller.key >= 100)         # disputers are user actors
+        E.ctx.assume(z3.Not(C13.bz(C13.view(E, pre['info'])['pw_some'])))
+        E.ctx.env['balance0'] = rt.balance
+        env = E.ctx.env
+        lz = lambda nm, ty: (lambda E2, c: ok(LazyV(nm, ty), c.dest_ty))
+        E.cuts['request_current_epoch_block_reward'] = lz('epoch_reward', 'fil_actors_runtime::builtin::reward::ThisEpochRewardReturn')
+        E.cuts['request_current_total_power'] = lz('power_total', 'ext::power::CurrentTotalPowerReturn')
+        E.cuts['State::load_deadlines'] = lz('deadlines', 'deadlines::Deadlines')
+        E.cuts['Deadlines::load_deadline'] = lz('dl', 'deadline_state::Deadline')
+        E.cuts['Deadlines::update_deadline'] = lambda E2, c: ok(UNIT, c.dest_ty)
+        E.cuts['State::save_deadlines'] = lambda E2, c: ok(UNIT, c.dest_ty)
+        E.cuts['Deadline::take_post_proofs'] = lambda E2, c: ok(StructV('tuple', {0: models_fvm.BitFieldV('disputed_partitions'), 1: VecV([], 'Vec<PoStProof>')}), c.dest_ty)
+
+        def dinfo(E2, c):
+            raw, qa = z3.Int('disputed.raw'), z3.Int('disputed.qa')
+            E2.ctx.assume(z3.And(raw >= 0, qa >= 0))
+            DI = Fields('actors/miner/src/deadline_state.rs', 'DisputeInfo')
+            v = StructV('deadline_state::DisputeInfo', {DI['disputed_power']: _pp(raw, qa)}, lazy='dispute_info')
+            return ok(v, c.dest_ty)
+        E.cuts['Deadline::load_partitions_for_dispute'] = dinfo
+        E.cuts['Sectors::load'] = lz('sectors', 'sectors::Sectors')
+        E.cuts['Sectors::load_for_proof'] = lambda E2, c: ok(VecV([], 'Vec<SectorOnChainInfo>'), c.dest_ty)
+        E.cuts['verify_windowed_post'] = lambda E2, c: ok(E2.ctx.fresh_bool('post_valid'), c.dest_ty)
+        E.cuts['Deadline::record_faults'] = lambda E2, c: ok(_pp(z3.Int('fault_delta.raw'), z3.Int('fault_delta.qa')), c.dest_ty)
+        for pre_ in ('', 'monies::', 'policy::'):
+            E.cuts[pre_ + 'pledge_penalty_for_invalid_windowpost'] = _cut_amount('penalty_base')
+            E.cuts[pre_ + 'reward_for_disputed_window_post'] = _cut_amount('reward_target')
+        rt.send_hook = lambda E2, rt2, rec, nm: (None if implied(E2.ctx, addr_eq(rec.to, rt2.caller)) else ('ok', None))   # only the reward transfer may fail
+        from .miner_money import install_bib_cut
+        install_bib_cut(E)
+        params = LazyV('params', 'types::DisputeWindowedPoStParams')
+        fn = find_fn(E, MINER, 'dispute_windowed_post')
+        return E.run_function(fn, [rtref, params]), rt
+    return run
+
+
+def props_dispute(E, res):
+    from .miner_money import bib_prop
+    env = res.ctx.env
+    rt, pre = env['rt'], env['pre']
+    ctx = res.ctx
+    if res.kind != 'return':
+        return [tagged('ALL', 'no panic (%s)' % str(res.info)[:60], False)]
+    if is_err(res.value):
+        return [bib_prop(res)]
+    ch = env.get('charges', {})
+    penalty = ch.get('penalty_base', 0) + ch.get('reward_target', 0)
+    target = ch.get('reward_target', 0)
+    led = ledgers(E, rt.state)
+    burns, pledge, others = classify_sends(rt, ctx)
+    reporter_sends = [s for s in others if implied(ctx, zv(s.method) == 0) and implied(ctx, addr_eq(s.to, rt.caller))]
+    power_sends = [s for s in others if s not in reporter_sends]
+    paid = sum(s.value for s in reporter_sends if s.ok) if reporter_sends else 0
+    offered = sum(s.value for s in reporter_sends) if reporter_sends else 0
+    burnt = sum(s.value for s in burns) if burns else 0
+    P = []
+    P.append(tagged('C15', 'the whole penalty of a disputed proof is burnt, paid to the disputer or kept as fee debt; an undeliverable reward is burnt, never kept by the miner',
+                    burnt + paid + led['fd'] == pre['fd'] + penalty))
+    taken = pre['fd'] + penalty - led['fd']
+    P.append(tagged('C15', "the disputer's reward never exceeds what was taken from the miner nor the reward target", z3.And(offered <= taken, offered <= target, offered >= 0)))
+    P.append(tagged('C15,C01', 'fee debt never negative', led['fd'] >= 0))
+    for s in power_sends:
+        P.append(tagged('C01', 'only the burn and the reward carry value', s.value == 0))
+    sent_delta = sum(pledge_delta_of(E, s) for s in pledge) if pledge else 0
+    P.append(tagged('C03', 'pledge notifications add up to the change of pledge + vesting funds', sent_delta == (led['ip'] + led['lf']) - (pre['ip'] + pre['lf'])))
+    P.append(tagged('C03,C14', 'locked-funds total = sum of the vesting schedule', led['lf'] == table_sum(led['vents'])))
+    P.append(tagged('C01', 'miner stays solvent', solvency(rt, led)))
+    P.append(tagged('C05', "no 'balance invariants broken' from a solvent state", True))
+    return P
+
+
+def build_dispute(pid, tier):
+    wrap = lambda f: (lambda E, res: for_property(pid, f(E, res)))
+    O = []
+    for n in ([0, 1] if tier == 'quick' else [0, 1, 2]):
+        O.append(Obligation('miner.dispute_windowed_post[vesting entries=%d]' % n, run_dispute(n), wrap(props_dispute),
+                            descr='successful dispute: penalty = base + reward target applied in full (burnt, paid to the disputer or fee debt); undeliverable reward burnt; pledge notification exact; solvent',
+                            bounds='%d vesting entries; CUTS: deadline/partition/sector loading, proof verification (arbitrary verdict), record_faults, penalty/reward formulas (arbitrary amounts >= 0); no worker-key change pending; sends to the power / burnt-funds actors succeed, the reward transfer may fail' % n,
+                            max_paths=400000, wall_s=400 if tier == 'quick' else 1500))
+    return O
